@@ -1571,9 +1571,9 @@ func (e *CoreExtension) filterSlice(value interface{}, args ...interface{}) (int
 		// Calculate end index
 		end := runeCount
 		if hasLength && length >= 0 {
-			end = start + length
-			if end > runeCount {
-				end = runeCount
+			// start < runeCount here: the difference cannot overflow, start+length can
+			if length < runeCount-start {
+				end = start + length
 			}
 		} else if hasLength {
 			// Negative length means count from the end
@@ -1603,9 +1603,9 @@ func (e *CoreExtension) filterSlice(value interface{}, args ...interface{}) (int
 		// Calculate end index
 		end := count
 		if hasLength && length >= 0 {
-			end = start + length
-			if end > count {
-				end = count
+			// start < count here: the difference cannot overflow, start+length can
+			if length < count-start {
+				end = start + length
 			}
 		} else if hasLength {
 			// Negative length means count from the end
@@ -1642,9 +1642,9 @@ func (e *CoreExtension) filterSlice(value interface{}, args ...interface{}) (int
 		// Calculate end index
 		end := runeCount
 		if hasLength && length >= 0 {
-			end = start + length
-			if end > runeCount {
-				end = runeCount
+			// start < runeCount here: the difference cannot overflow, start+length can
+			if length < runeCount-start {
+				end = start + length
 			}
 		} else if hasLength {
 			// Negative length means count from the end
@@ -1674,9 +1674,9 @@ func (e *CoreExtension) filterSlice(value interface{}, args ...interface{}) (int
 		// Calculate end index
 		end := count
 		if hasLength && length >= 0 {
-			end = start + length
-			if end > count {
-				end = count
+			// start < count here: the difference cannot overflow, start+length can
+			if length < count-start {
+				end = start + length
 			}
 		} else if hasLength {
 			// Negative length means count from the end
